@@ -320,10 +320,48 @@ class Translator:
             if c[0] == 'none':
                 return b
         if is_expr(a) and is_expr(b):
+            if a[0] in STRING_TAGS and b[0] in STRING_TAGS and (a[0] == 'cat' or b[0] == 'cat'):
+                return self.merge_strings(c, a, b)
             return E('ite', c, a, b)
         if a[0] == '$tuple' and b[0] == '$tuple' and len(a[1]) == len(b[1]):
             return ('$tuple', [self.merge(c, x, y) for x, y in zip(a[1], b[1])])
         raise Unsupported('cannot merge %s / %s' % (a[0], b[0]))
+
+    @staticmethod
+    def flat(e):
+        if e[0] == 'cat':
+            return Translator.flat(e[1]) + Translator.flat(e[2])
+        return [e]
+
+    def merge_strings(self, c, a, b):
+        """`rep = X; if c: rep += Y` -> X ++ (Y if c else '') : factor the common prefix of two concatenations."""
+        fa, fb = self.flat(a), self.flat(b)
+        prefix = []
+        while fa and fb:
+            x, y = fa[0], fb[0]
+            if x == y:
+                prefix.append(x)
+                fa, fb = fa[1:], fb[1:]
+                continue
+            if x[0] == 'strLit' and y[0] == 'strLit':
+                n = 0
+                while n < len(x[1]) and n < len(y[1]) and x[1][n] == y[1][n]:
+                    n += 1
+                if n:
+                    prefix.append(E('strLit', x[1][:n]))
+                    fa = ([E('strLit', x[1][n:])] if x[1][n:] else []) + fa[1:]
+                    fb = ([E('strLit', y[1][n:])] if y[1][n:] else []) + fb[1:]
+            break
+        if not prefix:
+            return E('ite', c, a, b)
+        tail = E('ite', c, self.cat_all(fa), self.cat_all(fb))
+        return self.cat_raw(prefix + [tail])
+
+    def cat_raw(self, parts):
+        out = parts[-1]
+        for p in reversed(parts[:-1]):
+            out = E('cat', p, out)
+        return out
 
     def to_str(self, v):
         if is_expr(v) and v[0] in STRING_TAGS:
@@ -757,3 +795,108 @@ def expr_has(e, tags):
     if e and e[0] in tags:
         return True
     return any(expr_has(x, tags) for x in e[1:] if isinstance(x, tuple))
+
+
+# ---------------------------------------------------------------------------------------------- call shape
+
+def split_shape(strx):
+    """Split a `__str__` expression `name[_nocancel](p0, p1, …)tail` into (head, params, tail) where params is a
+    list of (condition | None, expr).  Returns None when the text is not of that form.  The Lean side re-checks
+    `normalize str = normalize (assemble head params tail)` in the kernel, so this analysis is not trusted."""
+    T = Translator
+    pieces = T.flat(strx)
+    head, params, tail = [], [], []
+    cur = None                      # pieces of the parameter being collected
+    state = 'head'
+    depth = 0
+    for p in pieces:
+        if state == 'tail':
+            tail.append(p)
+            continue
+        if p[0] != 'strLit':
+            if state == 'head':
+                head.append(p)
+                continue
+            # inside the parentheses
+            if (depth == 1 and p[0] == 'ite' and p[3] == E('strLit', '')):
+                tb = T.flat(p[2])
+                if tb and tb[0][0] == 'strLit' and tb[0][1].startswith(', '):
+                    rest0 = tb[0][1][2:]
+                    body = ([E('strLit', rest0)] if rest0 else []) + tb[1:]
+                    if cur is not None and (cur or params or True):
+                        params.append((None, cur))
+                        cur = None
+                    params.append((p[1], body))
+                    continue
+            if cur is None:
+                return None
+            cur.append(p)
+            continue
+        buf = ''
+        text = p[1]
+        i = 0
+        while i < len(text):
+            ch = text[i]
+            if state == 'head':
+                if ch == '(':
+                    if buf:
+                        head.append(E('strLit', buf))
+                    buf = ''
+                    state = 'params'
+                    depth = 1
+                    cur = []
+                else:
+                    buf += ch
+                i += 1
+                continue
+            if state == 'params':
+                if ch == '(':
+                    depth += 1
+                elif ch == ')':
+                    depth -= 1
+                    if depth == 0:
+                        if buf:
+                            if cur is None:
+                                return None
+                            cur.append(E('strLit', buf))
+                        buf = ''
+                        if cur is not None and (cur or params):
+                            params.append((None, cur))
+                        elif cur is not None and not cur and not params:
+                            pass               # "()" : no parameters
+                        cur = None
+                        state = 'tail'
+                        i += 1
+                        continue
+                elif ch == ',' and depth == 1 and text[i + 1:i + 2] == ' ':
+                    if cur is None:
+                        return None
+                    if buf:
+                        cur.append(E('strLit', buf))
+                    buf = ''
+                    params.append((None, cur))
+                    cur = []
+                    i += 2
+                    continue
+                buf += ch
+                i += 1
+                continue
+            # tail
+            buf += ch
+            i += 1
+        if buf:
+            if state == 'head':
+                head.append(E('strLit', buf))
+            elif state == 'params':
+                if cur is None:
+                    return None
+                cur.append(E('strLit', buf))
+            else:
+                tail.append(E('strLit', buf))
+    if state != 'tail':
+        return None
+    if any(not body for _, body in params):
+        return None
+    tr = Translator({})
+    mk = lambda ps: tr.cat_raw(ps) if ps else E('strLit', '')
+    return mk(head), [(c, mk(b)) for c, b in params], mk(tail)
